@@ -65,7 +65,7 @@ def reduced(ids, **kw):
 
 def scen_hurry(ids, **kw):
     """S_A: data arrives only as hurry-up; rich passwords / replies / stray replies."""
-    d = dict(data=('H',), ends=('D',), passwords=('x', 'bang', 'nobang', 'xbang', 'nopass'), pbudget=2)
+    d = dict(data=('H',), ends=('D', 'T'), passwords=('x', 'bang', 'nobang', 'xbang', 'nopass'), pbudget=2)
     d.update(kw)
     return make(ids, **d)
 
@@ -74,5 +74,13 @@ def scen_orders(ids, **kw):
     """S_B: every arrival order of the data items; one password form, few reply kinds."""
     d = dict(passwords=('x',), pbudget=1, replies=('OKA', 'NO', 'MORE'), old_replies=('OKA',), malformed=('trunc',),
              malformed_replies=('OKA',), ghost_replies=('OKA',))
+    d.update(kw)
+    return make(ids, **d)
+
+
+def tiny(ids, **kw):
+    """Sigma_3: the smallest alphabet in which two clients still collide on both services and the timer."""
+    d = dict(data=('H',), ends=('D',), passwords=('x',), replies=('OKA', 'NO'), old_replies=(), malformed=(),
+             ghost_replies=(), pbudget=1, dead_probes=False)
     d.update(kw)
     return make(ids, **d)
